@@ -21,6 +21,7 @@ class Flags(object):
         self.nonloc = z3.Bool('k_declared_nonlocal_in_the_scope')
         self.outer_has = z3.Bool('enclosing_scope_names_hold_k')
         self.top_has = z3.Bool('module_names_hold_k')
+        self.gtab_has = z3.Bool('k_is_bound_through_a_global_declaration_somewhere')
 
 
 class SymSet(Proxy):
@@ -70,6 +71,14 @@ class OuterTable(Proxy):
 
     def __contains__(self, k):
         return core.CUR.branch(self.has)
+
+    def items(self):
+        return ItemsOf(self)
+
+
+class ItemsOf(Proxy):
+    def __init__(self, table):
+        self.table = table
 
 
 class KeysMinus(Proxy):
@@ -153,6 +162,21 @@ def parent_names_entry(run, twin=None):
     fl = Flags()
 
     def dictcomp(kind, iterable, elt, conds):
+        if kind == 'dict' and isinstance(iterable, ItemsOf):
+            # {n: v for n, v in <table>.items() if <filter>}
+            tab = iterable.table
+            if core.choice(2) == 0:
+                assume(tab.has)
+                item = (KEY, ('value-of', tab.label))
+                for c in conds:
+                    if not c(item):
+                        raise PathEnd()
+                k, v = elt(item)
+                prove('comprehension-copies-the-item', k == KEY and v == ('value-of', tab.label), kind='loop')
+                run.items_filter_passed = True
+                raise PathEnd()
+            # the filter as a formula: evaluated on the representative key in a sub-run is not possible here; the harness states it:
+            return Built(z3.And(tab.has, z3.Not(fl.local)), ('value-of', tab.label), iterable)
         if kind == 'dict' and isinstance(iterable, SymSet):
             # {n: t[n] for n in <identifier set> if n in t}
             if core.choice(2) == 0:
@@ -190,7 +214,7 @@ def parent_names_entry(run, twin=None):
         merged.append(ds)
         return ('merged', ds)
     run.globals_filter_has = fl.top_has
-    f = loader.load('supp.scope', 'Flow.parent_names', comps={2: dictcomp, 3: dictcomp, 4: dictcomp}, comps_optional=True,
+    f = loader.load('supp.scope', 'Flow.parent_names', comps={2: dictcomp, 3: dictcomp, 4: dictcomp, 5: dictcomp}, comps_optional=True,
                     stubs={'set': lambda t: KeysMinus(t), 'MergedDict': md_stub})
     outer = OuterTable(fl.outer_has, 'enclosing scope names')
     toptab = OuterTable(fl.top_has, 'module names')
@@ -211,6 +235,7 @@ def parent_names_entry(run, twin=None):
             run.case = kind
             class ModSc(Sm.SourceScope):
                 names = SelfTop.names
+                _global_names = OuterTable(fl.gtab_has, 'names bound through global declarations')
             cls = Sm.ClassScope if kind == 'class' else ModSc if kind == 'module' else Sm.FuncScope
             sc = cls.__new__(cls)
             sc.parent = None if kind == 'no-parent' else Parent()
@@ -260,7 +285,14 @@ def parent_names_entry(run, twin=None):
                 return
             if kind == 'module':
                 # module level: a `global` declaration changes nothing; module names shadow the builtins
-                prove('module-entry-is-builtins-minus-module-names', has == z3.And(fl.outer_has, z3.Not(fl.local)), path=p)
+                prove('module-entry-is-builtins-and-global-declared-names-minus-module-names',
+                      has == z3.And(z3.Not(fl.local), z3.Or(fl.outer_has, fl.gtab_has)),
+                      clause='module level sees the builtins and what functions bind through `global`, shadowed by the module\'s own names', path=p)
+                def src_is2(v, label):
+                    if isinstance(v, tuple) and v[0] == 'ite':
+                        return z3.If(v[1], src_is2(v[2], label), src_is2(v[3], label))
+                    return z3.BoolVal(v == ('value-of', label))
+                prove('global-declared-binding-shadows-the-builtin', z3.Implies(z3.And(has, fl.gtab_has), src_is2(val, 'names bound through global declarations')), path=p)
                 return
             want_module = fl.glob
             want_has = z3.If(fl.glob, fl.top_has, z3.If(fl.local, z3.BoolVal(False), fl.outer_has))
